@@ -1,0 +1,25 @@
+//go:build verif
+
+package gozxing
+
+// Re-exports of unexported binariser internals for the /verif correspondence harness (property C17).
+// Only compiled with `-tags verif`; nothing here changes behaviour.
+
+// VerifEstimateBlackPoint calls GlobalHistogramBinarizer.estimateBlackPoint on a histogram.
+func VerifEstimateBlackPoint(buckets []int) (int, error) {
+	return (&GlobalHistogramBinarizer{}).estimateBlackPoint(buckets)
+}
+
+// VerifHybridBlackPoints calls HybridBinarizer.calculateBlackPoints with the sub-block counts that
+// HybridBinarizer.GetBlackMatrix derives from the image size.
+func VerifHybridBlackPoints(luminances []byte, width, height int) [][]int {
+	subWidth := width >> BLOCK_SIZE_POWER
+	if (width & BLOCK_SIZE_MASK) != 0 {
+		subWidth++
+	}
+	subHeight := height >> BLOCK_SIZE_POWER
+	if (height & BLOCK_SIZE_MASK) != 0 {
+		subHeight++
+	}
+	return (&HybridBinarizer{}).calculateBlackPoints(luminances, subWidth, subHeight, width, height)
+}
